@@ -233,6 +233,15 @@ class Env:
         from mindsdb_sql import parse_sql
         self._trees = {}
         for op in ops:
+            if op.get('k') == 'plan' and op.get('sql') and not op.get('ast'):
+                # a statement cache: the text is parsed once, every plan op gets a COPY of the template (copies must be independent)
+                key = ('tpl', op.get('d', 'mindsdb'), op['sql'])
+                if key not in self._trees:
+                    try:
+                        self._trees[key] = parse_sql(op['sql'], dialect=op.get('d', 'mindsdb'))
+                    except Exception:
+                        self._trees[key] = None
+                continue
             if op.get('k') != 'render':
                 continue
             key = (op.get('d'), op.get('sql'), op.get('ast'))
@@ -391,7 +400,12 @@ def run_op(op, env):
         if k == 'plan':
             from mindsdb_sql import parse_sql
             from mindsdb_sql.planner import plan_query
-            ast = build_tree(op['ast']) if op.get('ast') else parse_sql(op['sql'], dialect=op.get('d', 'mindsdb'))
+            tpl = (getattr(env, '_trees', None) or {}).get(('tpl', op.get('d', 'mindsdb'), op.get('sql'))) if not op.get('ast') else None
+            if tpl is not None:
+                import copy as _copy
+                ast = tpl.copy() if len(op['sql']) % 2 else _copy.deepcopy(tpl)
+            else:
+                ast = build_tree(op['ast']) if op.get('ast') else parse_sql(op['sql'], dialect=op.get('d', 'mindsdb'))
             cat_ = env.catalog(op.get('cat'))
             plan = plan_query(ast, **plan_kwargs(cat_))
             obs = 'ok: ' + dump_steps(plan.steps)
